@@ -1,5 +1,5 @@
-"""Fail-closed translator of the bodies of five Hypergraph mutators - add_node, add_node_to_edge, remove_edge, remove_node,
-remove_node_from_edge (xgi/core/hypergraph.py) - into programs of the small imperative language of
+"""Fail-closed translator of the bodies of nine Hypergraph mutators - add_node, add_node_to_edge, remove_edge, remove_node,
+remove_node_from_edge, add_edge, remove_edges_from, clear, clear_edges (xgi/core/hypergraph.py) - into programs of the small imperative language of
 coq/Model/PyIR.v (coq/Gen/Mutators.v).  `Props/C01.v` proves that running the regenerated programs on a state
 satisfying the class invariant is exactly what the hand-written model does.
 
@@ -14,7 +14,12 @@ Accepted statements (anything else fails the translation):
     for <x> in <name>: <stmts>        for <x> in <name>.difference({<v>}): <stmts>        (at most two nested loops)
   <cond> ::= <v> in self._T | <v> not in self._T | <v> [not] in self._T[<v>] | not self._T[<v>] | <flag> | not <cond>
            | <cond> and <cond>
-  <v> a label parameter or the loop variable; <flag> a boolean parameter."""
+  <v> a label parameter or the loop variable; <flag> a boolean parameter.
+add_edge(self, members, idx=None, **attr) additionally: a first statement `members = set(members)`; leading guards
+    `if <cond>: raise E(...)` and `if <cond>: warn(...); return` with <cond> also `None in members`, `idx in self._edge[.keys()]`;
+    `uid = next(self._edge_uid) if idx is None else idx` (scope = the rest of the block); `for <x> in members:`; `idx is [not] None`.
+remove_edges_from(self, ebunch): `for <x> in ebunch:`.   clear / clear_edges: `self._T.clear()`, `self._net_attr.clear()`,
+    `for <x> in self.nodes: self._node[<x>] = set()` (a loop over the keys whose body keeps the key set)."""
 import ast, os
 from . import common as C
 
@@ -28,15 +33,20 @@ class TranslationError(Exception):
 
 
 class M:
-    def __init__(self, labels, flags, kwattr=None):
+    def __init__(self, labels, flags, kwattr=None, members=None, idx=None):
         self.labels, self.flags, self.kwattr = labels, flags, kwattr
         self.loops, self.locals = [], []          # innermost first
+        self.members, self.idx, self.uid = members, idx, None   # add_edge: the `members` set, the optional id, the bound uid
 
     def v(self, x):
         if isinstance(x, ast.Name) and x.id in self.labels:
             return f"(VArg {self.labels.index(x.id)})"
         if isinstance(x, ast.Name) and x.id in self.loops[:2]:
             return "VLoop" if self.loops.index(x.id) == 0 else "VLoop1"
+        if isinstance(x, ast.Name) and self.uid is not None and x.id == self.uid:
+            return "VUid"
+        if isinstance(x, ast.Name) and self.idx is not None and x.id == self.idx:
+            return "VIdx"
         raise TranslationError(f"label not understood: {ast.unparse(x)}")
 
     def selftab(self, x, tables):
@@ -66,6 +76,20 @@ class M:
             return f"(BNot {self.cond(c.operand)})"
         if isinstance(c, ast.Name) and c.id in self.flags:
             return f"(BFlag {self.flags.index(c.id)})"
+        if isinstance(c, ast.Compare) and len(c.ops) == 1 and isinstance(c.ops[0], (ast.Is, ast.IsNot)) and self.idx is not None \
+                and isinstance(c.left, ast.Name) and c.left.id == self.idx and ast.unparse(c.comparators[0]) == "None":
+            return "BIdxNone" if isinstance(c.ops[0], ast.Is) else "(BNot BIdxNone)"
+        if isinstance(c, ast.Compare) and len(c.ops) == 1 and isinstance(c.ops[0], ast.In) and self.members is not None \
+                and ast.unparse(c.left) == "None" and isinstance(c.comparators[0], ast.Name) and c.comparators[0].id == self.members:
+            return "BNoneInMembers"
+        if isinstance(c, ast.Compare) and len(c.ops) == 1 and isinstance(c.ops[0], ast.In) and self.idx is not None \
+                and isinstance(c.left, ast.Name) and c.left.id == self.idx:
+            right = c.comparators[0]
+            if isinstance(right, ast.Call) and isinstance(right.func, ast.Attribute) and right.func.attr == "keys" and not right.args:
+                right = right.func.value          # x in d.keys()  ==  x in d
+            t = self.selftab(right, TABLES)
+            if t:
+                return f"(BIdxIn {t})"
         if isinstance(c, ast.Compare) and len(c.ops) == 1 and isinstance(c.ops[0], (ast.In, ast.NotIn)):
             right = c.comparators[0]
             t = self.selftab(right, TABLES)
@@ -91,8 +115,33 @@ class M:
                     self.locals.pop(0)
                     out.append(f"(SBindIn {s[0]} {s[1]} {rest})")
                     return "[" + "; ".join(out) + "]"
+            # uid = next(self._edge_uid) if idx is None else idx ; the rest of the block is its scope
+            if isinstance(st, ast.Assign) and len(st.targets) == 1 and isinstance(st.targets[0], ast.Name) and self.idx is not None \
+                    and self.uid is None and ast.unparse(st.value) == f"next(self._edge_uid) if {self.idx} is None else {self.idx}":
+                self.uid = st.targets[0].id
+                rest = self.block(stmts[i + 1:])
+                self.uid = None
+                out.append(f"(SBindUid {rest})")
+                return "[" + "; ".join(out) + "]"
             out.append(self.stmt(st))
         return "[" + "; ".join(out) + "]"
+
+    def guards(self, stmts):
+        """leading `if c: raise E(...)` / `if c: warn(...); return` statements -> (guards, remaining statements)"""
+        gs = []
+        for i, st in enumerate(stmts):
+            if isinstance(st, ast.If) and not st.orelse:
+                b = st.body
+                if len(b) == 1 and isinstance(b[0], ast.Raise) and isinstance(b[0].exc, ast.Call) and isinstance(b[0].exc.func, ast.Name) \
+                        and b[0].exc.func.id in ("XGIError", "IDNotFound"):
+                    gs.append(f"({self.cond(st.test)}, GRaise {b[0].exc.func.id})")
+                    continue
+                if len(b) == 2 and isinstance(b[0], ast.Expr) and isinstance(b[0].value, ast.Call) and isinstance(b[0].value.func, ast.Name) \
+                        and b[0].value.func.id == "warn" and isinstance(b[1], ast.Return) and b[1].value is None:
+                    gs.append(f"({self.cond(st.test)}, GWarnReturn)")
+                    continue
+            return gs, stmts[i:]
+        return gs, []
 
     def stmt(self, st):
         if isinstance(st, ast.If):
@@ -122,6 +171,16 @@ class M:
                 s = self.sub(call.func.value, TABLES)
                 if s:
                     return f"({'SAdd' if call.func.attr == 'add' else 'SRemove'} {s[0]} {s[1]} {self.v(call.args[0])})"
+        if isinstance(st, ast.Expr) and isinstance(st.value, ast.Call) and isinstance(st.value.func, ast.Attribute) \
+                and st.value.func.attr == "clear" and not st.value.args and not st.value.keywords:
+            t = self.selftab(st.value.func.value, TABLES)
+            if t:
+                return f"(SClear {t})"
+            t = self.selftab(st.value.func.value, ATABLES)
+            if t:
+                return f"(SClearAttr {t})"
+            if ast.unparse(st.value.func.value) == "self._net_attr":
+                return "SClearNet"
         if isinstance(st, ast.Delete) and len(st.targets) == 1:
             s = self.sub(st.targets[0], TABLES)
             if s:
@@ -131,8 +190,21 @@ class M:
                 return f"(SDelAttr {s[0]} {s[1]})"
         if isinstance(st, ast.For) and isinstance(st.target, ast.Name) and not st.orelse and len(self.loops) < 2:
             it = st.iter
-            if isinstance(it, ast.Call) and isinstance(it.func, ast.Attribute) and it.func.attr == "copy" and not it.args \
-                    and not self.loops:
+            keyt = {"self.nodes": "TNode", "self._node": "TNode", "self": "TNode", "self.edges": "TEdge", "self._edge": "TEdge"}.get(ast.unparse(it))
+            if keyt and not self.loops:
+                # iterating the keys while the body runs: only `self._T[<loop>] = set()` on existing keys is accepted
+                self.loops.insert(0, st.target.id)
+                body = [self.stmt(b) for b in st.body]
+                self.loops.pop(0)
+                if any(b != f"(SNewSet {keyt} VLoop)" for b in body):
+                    raise TranslationError(f"loop over the keys with a body that may change them: {ast.unparse(st)[:80]}")
+                return f"(SForKeys {keyt} [{'; '.join(body)}])"
+            if isinstance(it, ast.Name) and self.members is not None and it.id == self.members:
+                self.loops.insert(0, st.target.id)
+                body = self.block(st.body)
+                self.loops.pop(0)
+                return f"(SForMembers {body})"
+            if isinstance(it, ast.Call) and isinstance(it.func, ast.Attribute) and it.func.attr == "copy" and not it.args:
                 s = self.sub(it.func.value, TABLES)
                 if s:
                     self.loops.insert(0, st.target.id)
@@ -160,6 +232,12 @@ SPEC = [("src_add_node", "add_node", ["node"], []),
         ("src_remove_node_from_edge", "remove_node_from_edge", ["edge", "node"], ["remove_empty"])]
 
 
+# methods over an iterable of ids / over flags only: (coq name, method, parameters, flag parameters, the iterable)
+SPEC_L = [("src_remove_edges_from", "remove_edges_from", ["ebunch"], [], "ebunch"),
+          ("src_clear", "clear", ["remove_net_attr"], ["remove_net_attr"], None),
+          ("src_clear_edges", "clear_edges", [], [], None)]
+
+
 def translate():
     tree = ast.parse(open(os.path.join(C.REPO, "xgi", "core", "hypergraph.py")).read())
     cls = [n for n in tree.body if isinstance(n, ast.ClassDef) and n.name == "Hypergraph"]
@@ -173,13 +251,37 @@ def translate():
         kw = fns[0].args.kwarg.arg if fns[0].args.kwarg else None
         body = [s for s in fns[0].body if not (isinstance(s, ast.Expr) and isinstance(s.value, ast.Constant))]
         out.append(f"Definition {coqname} : list stmt :=\n  {M(labels, flags, kw).block(body)}.\n")
-    return out
+    for coqname, pyname, params, flags, members in SPEC_L:
+        fns = [n for n in cls[0].body if isinstance(n, ast.FunctionDef) and n.name == pyname]
+        if len(fns) != 1 or [a.arg for a in fns[0].args.args] != ["self"] + params or fns[0].args.kwarg or fns[0].args.vararg:
+            raise TranslationError(f"Hypergraph.{pyname} not found or unexpected parameters")
+        body = [s for s in fns[0].body if not (isinstance(s, ast.Expr) and isinstance(s.value, ast.Constant))]
+        out.append(f"Definition {coqname} : list stmt :=\n  {M([], flags, None, members=members).block(body)}.\n")
+    return out + translate_add_edge(cls[0])
+
+
+def translate_add_edge(cls):
+    """add_edge(self, members, idx=None, **attr): `members = set(members)`, guards, statements"""
+    fns = [n for n in cls.body if isinstance(n, ast.FunctionDef) and n.name == "add_edge"]
+    if len(fns) != 1:
+        raise TranslationError("Hypergraph.add_edge not found")
+    f = fns[0]
+    if [a.arg for a in f.args.args] != ["self", "members", "idx"] or len(f.args.defaults) != 1 \
+            or ast.unparse(f.args.defaults[0]) != "None" or f.args.kwarg is None or f.args.vararg or f.args.kwonlyargs:
+        raise TranslationError("Hypergraph.add_edge: unexpected parameters")
+    body = [s for s in f.body if not (isinstance(s, ast.Expr) and isinstance(s.value, ast.Constant))]
+    if not body or ast.unparse(body[0]) != "members = set(members)":
+        raise TranslationError("Hypergraph.add_edge: expected `members = set(members)` first")
+    m = M([], [], f.args.kwarg.arg, members="members", idx="idx")
+    gs, rest = m.guards(body[1:])
+    return [f"Definition src_add_edge_guards : list (bexp * guard_action) :=\n  [{'; '.join(gs)}].\n",
+            f"Definition src_add_edge : list stmt :=\n  {m.block(rest)}.\n"]
 
 
 def regenerate():
     defs = translate()
     os.makedirs(GEN, exist_ok=True)
-    text = ("(* GENERATED by harness/translate_mutators.py from xgi/core/hypergraph.py (add_node, add_node_to_edge, remove_edge, remove_node, remove_node_from_edge) - do not edit. *)\n"
+    text = ("(* GENERATED by harness/translate_mutators.py from xgi/core/hypergraph.py (add_node, add_node_to_edge, remove_edge, remove_node, remove_node_from_edge, add_edge, remove_edges_from, clear, clear_edges) - do not edit. *)\n"
             "From Coq Require Import List.\nFrom XV Require Import Base.Outcome Model.PyIR.\nImport ListNotations.\n\n" + "\n".join(defs))
     p = os.path.join(GEN, "Mutators.v")
     if not os.path.exists(p) or open(p).read() != text:
